@@ -208,6 +208,12 @@ func (st *Stack) setupScenario(ctx context.Context) error {
 
 // trigger predicate for an action.
 func (w *World) triggerReady(a Action) bool {
+	if a.Op == "reconfigure" {
+		// N carries the revision; the trigger threshold is in the note ("at=<n>")
+		if i := strings.Index(a.Note, "at="); i >= 0 {
+			fmt.Sscanf(a.Note[i+3:], "%d", &a.N)
+		}
+	}
 	if a.Client != "main" && !w.started {
 		return false // other clients begin once main has booted and started the pipeline
 	}
@@ -254,6 +260,37 @@ func (w *World) triggerReady(a Action) bool {
 		return ok && st != 1 && st != 5
 	case "quiet":
 		return w.or != nil && w.or.quiescent(w)
+	case "settled":
+		return w.or != nil && w.or.settled(w)
+	case "ctl-done":
+		done := true
+		for _, pa := range w.cfg.Plan {
+			if pa.Client == "main" || w.or.ctl.clientDone[pa.Client] || strings.HasPrefix(pa.Client, "waiter") {
+				continue // (waiters only observe; one whose trigger never comes must not hold up the end)
+			}
+			// a client whose last action is a wait that is (legitimately) still blocked counts as done
+			if _, inFlight := w.or.ctl.inFlight[pa.Client]; inFlight && strings.HasPrefix(w.or.ctl.callNote[pa.Client], "wait") && w.or.ctl.lastAction[pa.Client] {
+				continue
+			}
+			done = false
+		}
+		return done && w.or.settled(w)
+	case "rc-done":
+		for _, cl := range []string{"rc", "rc2", "stopper"} {
+			has := false
+			for _, pa := range w.cfg.Plan {
+				if pa.Client == cl {
+					has = true
+				}
+			}
+			if has && !w.or.ctl.clientDone[cl] {
+				return false
+			}
+		}
+		return w.or.quiescent(w) || w.or.settled(w)
+	case "restarted-quiet":
+		// the user client has finished its script (force stop ... start) and the restarted run drained
+		return w.or.ctl.clientDone["user"] && (w.or.quiescent(w) || w.or.settled(w))
 	}
 	return true
 }
@@ -266,9 +303,15 @@ func (w *World) runClient(name string, actions []Action, sim *Sim) {
 		w.mu.Lock()
 		w.clientsRunning--
 		w.mu.Unlock()
+		if w.or != nil {
+			w.or.ctl.clientDone[name] = true
+		}
 	}()
 	for i, a := range actions {
 		act := a
+		if w.or != nil {
+			w.or.ctl.lastAction[name] = i == len(actions)-1
+		}
 		d := w.park(nil, "cl.wait", fmt.Sprintf("%s.%d.%s", name, i, act.Op), 0, func() bool { return w.triggerReady(act) })
 		_ = d
 		sim.doAction(name, act)
@@ -398,6 +441,12 @@ func (s *Sim) doAction(client string, a Action) {
 		}
 	case "settle":
 		s.settle(client)
+	case "settle-control":
+		s.settleControl(client)
+	case "check-force":
+		w.or.checkForceStopped(w)
+	case "settle-reconf":
+		s.settleReconf(client)
 	case "drain:stopwait", "drain:stop+wait", "drain:stopall":
 		s.drain(client, strings.TrimPrefix(a.Op, "drain:"))
 	case "end":
@@ -430,30 +479,94 @@ func (s *Sim) crashRestart(client string, a Action) {
 
 func (s *Sim) reconfigure(client string, a Action) {
 	w := s.w
-	ctx := context.Background()
+	base := context.Background()
 	procID := a.Arg
 	rev := fmt.Sprintf("%d", a.N)
 	settings := map[string]string{"rev": rev}
-	if strings.Contains(a.Note, "openfail") {
+	openFail := strings.Contains(a.Note, "openfail")
+	if openFail {
 		settings["open"] = "fail"
 	}
-	_ = s.call(client, "reconfigure", procID+" rev="+rev, func(st *Stack) error {
-		inst, err := st.proc.Get(ctx, procID)
+	ctx := base
+	cancelled := strings.Contains(a.Note, "cancel")
+	if cancelled {
+		// the request context ends after a short (simulated) while, possibly while the swap is staged
+		var cancel context.CancelFunc
+		ctx, cancel = context.WithTimeout(base, time.Duration(1+a.N%7)*time.Millisecond)
+		defer cancel()
+	}
+	var applied bool
+	err := s.call(client, "reconfigure", procID+" rev="+rev+" "+a.Note, func(st *Stack) error {
+		inst, err := st.proc.Get(base, procID)
 		if err != nil {
 			return err
 		}
 		old := inst.Config
 		cfg := inst.Config
 		cfg.Settings = settings
-		if _, err := st.proc.UpdateWhileRunning(ctx, procID, inst.Plugin, cfg); err != nil {
+		if _, err := st.proc.UpdateWhileRunning(base, procID, inst.Plugin, cfg); err != nil {
 			return err
 		}
 		err = st.life.ReconfigureProcessor(ctx, PipelineID, procID)
 		if err != nil {
 			// mirror provisioning's rollbackInPlace: restore the stored config
-			_, _ = st.proc.UpdateWhileRunning(ctx, procID, inst.Plugin, old)
+			_, _ = st.proc.UpdateWhileRunning(base, procID, inst.Plugin, old)
+		} else {
+			applied = true
 		}
 		return err
 	})
-	_ = w
+	w.or.onReconfigureResult(w, procID, rev, openFail, cancelled, applied, err)
+	if applied {
+		// the instance must still count as running: an ordinary update is refused while the pipeline runs
+		inst, gerr := s.st.proc.Get(base, procID)
+		if gerr == nil {
+			if _, uerr := s.st.proc.Update(base, procID, inst.Plugin, inst.Config); uerr == nil {
+				if st, _, ok := w.db.durableStatus(PipelineID); ok && st == 1 && w.memStatus() == 1 {
+					w.violate("C13", "running-guard-lost", fmt.Sprintf("after a live reconfigure of %s the processor no longer counts as running: an ordinary update was accepted while the pipeline runs", procID))
+				}
+			}
+		}
+	}
+}
+
+// settleReconf: stop the pipeline gracefully and check the generation bookkeeping.
+func (s *Sim) settleReconf(client string) {
+	w := s.w
+	ctx := context.Background()
+	if st, _, ok := w.db.durableStatus(PipelineID); ok && st == 1 {
+		if err := s.call(client, "stopwait", PipelineID, func(st *Stack) error { return st.life.StopAndWait(ctx, PipelineID) }); err != nil {
+			_ = s.call(client, "wait", PipelineID, func(st *Stack) error { return st.life.WaitPipeline(PipelineID) })
+		}
+	}
+	w.or.checkGenerations(w)
+}
+
+// settleControl ends a control-plane run: drain a still-running pipeline, then check that the
+// pipeline can be started again (its connectors and processors were released) and stop it.
+func (s *Sim) settleControl(client string) {
+	w := s.w
+	ctx := context.Background()
+	st, _, ok := w.db.durableStatus(PipelineID)
+	if ok && st == 1 {
+		if err := s.call(client, "stopwait", PipelineID, func(st *Stack) error { return st.life.StopAndWait(ctx, PipelineID) }); err != nil {
+			// e.g. another stop is already draining the pipeline: wait for that one to finish
+			_ = s.call(client, "wait", PipelineID, func(st *Stack) error { return st.life.WaitPipeline(PipelineID) })
+		}
+	}
+	w.or.scenarioChecks(w)
+	if w.or.ctl.shutdown || w.hasViolation() || strings.HasPrefix(w.cfg.Scenario, "fatal-") {
+		return // the server is shutting down / the pipeline is broken for good: nothing is started any more
+	}
+	st, _, _ = w.db.durableStatus(PipelineID)
+	if st == 1 || st == 5 {
+		return
+	}
+	// restartability (C11): once a run has ended its connectors and processors are released
+	err := s.call(client, "start", PipelineID+" (restartability)", func(st *Stack) error { return st.life.Start(ctx, PipelineID) })
+	if err != nil {
+		w.or.checkRestartError(w, err)
+		return
+	}
+	_ = s.call(client, "stopwait", PipelineID, func(st *Stack) error { return st.life.StopAndWait(ctx, PipelineID) })
 }
